@@ -410,7 +410,7 @@ def run(ctx) -> None:
                     return f"`{df.kind}` definition of {e.id} (may alias the operand)"
                 w = alias(df.value, df.node, seen)
                 if w is not None:
-                    return w if df.value is None or not isinstance(df.value, ast.Call) or "view" in w or "itself" in w or "may alias" in w else w
+                    return w
             return None
         return f"`{norm1(e, 60)}` (may alias the operand)"
 
